@@ -1,0 +1,204 @@
+//go:build verif
+
+package tor
+
+import (
+	"context"
+	"io"
+	"math/rand/v2"
+	"sync/atomic"
+
+	"github.com/jech/storrent/bitmap"
+	"github.com/jech/storrent/hash"
+	"github.com/jech/storrent/path"
+	"github.com/jech/storrent/peer"
+	"github.com/jech/storrent/tracker"
+	"github.com/jech/storrent/webseed"
+)
+
+var verifDhtFn atomic.Value    // func(hash.Hash, bool, uint16)
+var verifExpireFn atomic.Value // func()
+
+// VerifSetDhtAnnounceHook installs an observer called just before every
+// dht.Announce.
+func VerifSetDhtAnnounceHook(f func(h hash.Hash, ipv6 bool, port uint16)) {
+	if f == nil {
+		f = func(hash.Hash, bool, uint16) {}
+	}
+	verifDhtFn.Store(f)
+}
+
+func verifDhtAnnounce(h hash.Hash, ipv6 bool, port uint16) {
+	if f, ok := verifDhtFn.Load().(func(hash.Hash, bool, uint16)); ok && f != nil {
+		f(h, ipv6, port)
+	}
+}
+
+// VerifSetExpireYield installs a function called by Expire between sampling
+// alloc.Bytes() and walking the torrent table.
+func VerifSetExpireYield(f func()) {
+	if f == nil {
+		f = func() {}
+	}
+	verifExpireFn.Store(f)
+}
+
+func verifExpireYield() {
+	if f, ok := verifExpireFn.Load().(func()); ok && f != nil {
+		f()
+	}
+}
+
+// VerifInit prepares a torrent for being driven without its event loop:
+// channels and the PRNG that run() would create.
+func VerifInit(t *Torrent, eventCap int, seed uint64) {
+	t.Event = make(chan peer.TorEvent, eventCap)
+	t.Done = make(chan struct{})
+	t.Deleted = make(chan struct{})
+	t.rand = rand.New(rand.NewPCG(seed, seed+1))
+	t.Log.SetOutput(io.Discard)
+}
+
+// VerifHandleEvent runs one iteration of the event loop's handler.
+func VerifHandleEvent(ctx context.Context, t *Torrent, e peer.TorEvent) error {
+	return handleEvent(ctx, t, e)
+}
+
+func VerifPeriodicRequest(ctx context.Context, t *Torrent) { periodicRequest(ctx, t) }
+func VerifMaybeRequest(ctx context.Context, t *Torrent)    { maybeRequest(ctx, t) }
+func VerifMaybeUnchoke(t *Torrent, periodic bool)          { maybeUnchoke(t, periodic) }
+func VerifTrackerAnnounce(ctx context.Context, t *Torrent) { trackerAnnounce(ctx, t) }
+func VerifMaybeWebseed(ctx context.Context, t *Torrent, index uint32, idle bool) bool {
+	return maybeWebseed(ctx, t, index, idle)
+}
+func VerifRequest(t *Torrent, p *peer.Peer, indices []uint32) error { return request(t, p, indices) }
+func VerifHasWebseeds(t *Torrent) bool                              { return hasWebseeds(t) }
+func VerifInfoHashes(all bool) []hash.HashPair                      { return infoHashes(all) }
+func VerifAdd(t *Torrent) bool                                      { return add(t) }
+func VerifDel(h hash.Hash)                                          { del(h) }
+
+func (t *Torrent) VerifAvailable() []uint16 { return append([]uint16(nil), t.available...) }
+func (t *Torrent) VerifInFlight() []uint8   { return append([]uint8(nil), t.inFlight...) }
+func (t *Torrent) VerifPeers() []*peer.Peer { return append([]*peer.Peer(nil), t.peers...) }
+func (t *Torrent) VerifAddPeer(p *peer.Peer) {
+	p.Pieces = &t.Pieces
+	t.peers = append(t.peers, p)
+}
+func (t *Torrent) VerifAmInterested() bool { return t.amInterested }
+func (t *Torrent) VerifProxy() string      { return t.proxy }
+func (t *Torrent) VerifConf() (int, bool, bool) {
+	return int(t.dhtMode), t.useTrackers, t.useWebseeds
+}
+func (t *Torrent) VerifSetTrackers(tr [][]tracker.Tracker) { t.trackers = tr }
+func (t *Torrent) VerifSetWebseeds(ws []webseed.Webseed)   { t.webseeds = ws }
+
+// VerifRequestedPiece is one entry of Torrent.requested.
+type VerifRequestedPiece struct {
+	Index   uint32
+	Prio    []int8
+	HasDone bool
+}
+
+func (t *Torrent) VerifRequested() []VerifRequestedPiece {
+	var out []VerifRequestedPiece
+	for i, r := range t.requested.pieces {
+		out = append(out, VerifRequestedPiece{i, append([]int8(nil), r.prio...), r.done != nil})
+	}
+	return out
+}
+
+// Direct access to the Requested structure (C10 model correspondence).
+func (t *Torrent) VerifRequestedAdd(index uint32, prio int8, want bool) (<-chan struct{}, bool) {
+	return t.requested.Add(index, prio, want)
+}
+func (t *Torrent) VerifRequestedDel(index uint32, prio int8) bool {
+	return t.requested.Del(index, prio)
+}
+func (t *Torrent) VerifRequestedDone(index uint32) { t.requested.Done(index) }
+func (t *Torrent) VerifRequestedDelIdle()          { t.requested.DelIdle() }
+func VerifRequestPiece(t *Torrent, index uint32, prio int8, request bool, want bool) (<-chan struct{}, bool) {
+	return requestPiece(t, index, prio, request, want)
+}
+
+// metadata
+type VerifInfoState struct {
+	InfoLen      int
+	Info         []byte
+	Bitmap       bitmap.Bitmap
+	Requested    []uint8
+	Votes        map[uint32]int
+	InfoComplete bool
+	RequestedNil bool
+}
+
+func (t *Torrent) VerifInfoState() VerifInfoState {
+	v := map[uint32]int{}
+	for k, c := range t.infoSizeVotes {
+		v[k] = c
+	}
+	return VerifInfoState{len(t.Info), t.Info, t.infoBitmap.Copy(),
+		append([]uint8(nil), t.infoRequested...), v, t.infoComplete != 0, t.infoRequested == nil}
+}
+func VerifMetadataVote(t *Torrent, size uint32) error     { return metadataVote(t, size) }
+func VerifMetadataGuess(t *Torrent) uint32                { return metadataGuess(t) }
+func VerifResizeMetadata(t *Torrent, size uint32) error   { return resizeMetadata(t, size) }
+func VerifRequestMetadata(t *Torrent, p *peer.Peer) error { return requestMetadata(t, p) }
+func VerifGotMetadata(t *Torrent, index, size uint32, data []byte) (bool, error) {
+	return gotMetadata(t, index, size, data)
+}
+
+// file chunks / web-seed writer
+type VerifFileChunk struct {
+	Path       path.Path
+	FileLength int64
+	Offset     int64
+	Length     int64
+	Pad        bool
+}
+
+func VerifFileChunks(t *Torrent, index, offset, length uint32) []VerifFileChunk {
+	var out []VerifFileChunk
+	for _, fc := range fileChunks(t, index, offset, length) {
+		out = append(out, VerifFileChunk{fc.path, fc.filelength, fc.offset, fc.length, fc.pad})
+	}
+	return out
+}
+
+// VerifWriter wraps the unexported web-seed writer.
+type VerifWriter struct{ w *writer }
+
+func VerifNewWriter(t *Torrent, index, offset, length uint32) *VerifWriter {
+	return &VerifWriter{NewWriter(t, index, offset, length)}
+}
+func (v *VerifWriter) Write(p []byte) (int, error)         { return v.w.Write(p) }
+func (v *VerifWriter) ReadFrom(r io.Reader) (int64, error) { return v.w.ReadFrom(r) }
+func (v *VerifWriter) Close() error                        { return v.w.Close() }
+func (v *VerifWriter) State() (offset, count uint32, buflen int) {
+	return v.w.offset, v.w.count, len(v.w.buf)
+}
+func VerifWebseedGR(ctx context.Context, ws *webseed.GetRight, t *Torrent, index, offset, length uint32) {
+	webseedGR(ctx, ws, t, index, offset, length)
+}
+func VerifWebseedH(ctx context.Context, ws *webseed.Hoffman, t *Torrent, index, offset, length uint32) {
+	webseedH(ctx, ws, t, index, offset, length)
+}
+
+// reader
+type VerifReaderReq struct {
+	Index uint32
+	Prio  int8
+}
+
+func (r *Reader) VerifRequested() (reqs []VerifReaderReq, requestedIndex int, position int64) {
+	for _, q := range r.requested {
+		reqs = append(reqs, VerifReaderReq{q.index, q.prio})
+	}
+	return reqs, r.requestedIndex, r.position
+}
+func (r *Reader) VerifChunks(pos, limit int64) []VerifReaderReq {
+	var out []VerifReaderReq
+	for _, q := range r.chunks(pos, limit) {
+		out = append(out, VerifReaderReq{q.index, q.prio})
+	}
+	return out
+}
